@@ -61,7 +61,6 @@ ERR_TO_OK_TABLE = {
     "noodles_bgzf::gzi::r#async::io::reader::index::read_index::{closure#0}": "same, async",
     "noodles_bam::io::indexed_reader::builder::read_associated_index": "NotFound on <src>.bai falls back to <src>.csi",
     "noodles_vcf::io::indexed_reader::builder::read_associated_index": "NotFound on .tbi falls back to .csi",
-    "noodles_bcf::io::reader::record_buf::read_record_buf": "read side: 0 bytes = EOF",
     "noodles_fastq::io::reader::record::definition::read_definition": "read side EOF handling",
     "noodles_fastq::r#async::io::reader::read_name::{closure#0}": "read side EOF handling",
     "noodles_bgzf::io::multithreaded_reader::MultithreadedReader::<R>::pause": "reader side: documented 'Discard read errors' when re-seeking",
